@@ -73,7 +73,7 @@ pub fn case_ops(scratch: &Path, meta: usize, id: &str, seed: u64, len: usize, po
             r.apply(&Op::Dir);
         }
         r.apply(&op);
-        if op.is_mutating() && rng.chance(2, 3) || is_reopen {
+        if op.is_mutating() && rng.chance(1, 4) || is_reopen {
             r.apply(&Op::State);
         }
     }
